@@ -198,6 +198,34 @@ def main():
     for fid, (e, r) in sorted(known_hits.items()):
         print("KNOWN-FINDING: property=%s %s [%s] e.g. %s" % (prop, e["what"], fid, r["op"][:200]))
 
+    # ---- tie-only obligations (DESIGN §8.7): a GenEq module that merely ties the hand-written model to the source
+    # may be lost when the source is rewritten into a form the translator cannot read, PROVIDED the other tie — the
+    # correspondence of the hand-written model with the code — still holds on this run (no mismatch outside the ops
+    # that execute the generated stubs) and the oracle is quiet.  The property theorems are about the hand model.
+    tie = getattr(mod, "TIE_ONLY", None)
+    degraded = []
+    if tie and broken and not new_fail:
+        untr = [u for u in trep.get("untranslated", []) if u.startswith(tie["prefix"])]
+
+        def is_tie_item(b):
+            return (b.startswith("translator: " + tie["prefix"]) or
+                    any(("lean: %s.lean" % m.replace(".", "/")) in b for m in tie["modules"]) or
+                    any(b.startswith("audit: theorem ") and t in b for m in tie["modules"] for t in mod.THEOREMS.get(m, [])))
+        gen_heads = tuple(tie.get("gen_op_heads", ()))
+        real_mismatch = [m for m in mismatches if not m["op"].split(" ")[0] in gen_heads]
+        if untr and all(is_tie_item(b) for b in broken) and not real_mismatch:
+            degraded = list(broken)
+            for b in broken:
+                print("NOTE: %s" % b)
+            print("NOTE: the translator cannot read %s any more; the tie of the hand-written model to the code is kept by "
+                  "the correspondence stream (%d ops, 0 mismatches outside the generated-stub ops) and the property "
+                  "theorems are unaffected" % (", ".join(untr), len(rows)))
+            broken, mismatches = [], []
+            tie_thms = {t for m in tie["modules"] for t in mod.THEOREMS.get(m, [])}
+            all_thms = [t for t in all_thms if t not in tie_thms]
+            n_thm = len(all_thms)
+            discharged = sum(1 for t in all_thms if t in axioms)
+
     status, replay = 0, None
     if new_fail:
         r = shrink(mod, new_fail[0], have_driver)
@@ -219,7 +247,7 @@ def main():
             sops += list(extra(rng))
         else:
             sops += list(mod.gen_ops("thorough", random.Random(seed + 7919)))
-        for r in evaluate(mod, sops, False):
+        for r in evaluate(mod, sops, have_driver):
             if r["verdict"] is not None and not known.lookup(prop, r["verdict"][0]):
                 found = r
                 break
@@ -234,7 +262,7 @@ def main():
         else:
             replay = save_replay(prop, "seed%d" % seed, {
                 "property": prop, "kind": "no-failing-input-found",
-                "broken_obligations": broken,
+                "broken_obligations": broken, "tie_degraded": degraded,
                 "correspondence_mismatches": [{k: m[k] for k in ("stream", "op", "impl", "model")}
                                               for m in mismatches[:20]],
                 "cases": [{"stream": m["stream"], "op": m["op"]} for m in mismatches[:20]],
@@ -272,7 +300,7 @@ def main():
             "trusted_base": mod.TRUSTED_BASE,
             "theorems": all_thms,
             "axioms_used": sorted({x for v in axioms.values() for x in v}),
-            "broken_obligations": broken,
+            "broken_obligations": broken, "tie_degraded": degraded,
             "translator": {k: trep.get(k) for k in ("changed", "untranslated")},
             "evaluations": len(rows), "distinct_nontrivial": len(distinct),
             "rule": mod.RULE, "samples": samples, "streams": per_stream,
